@@ -115,10 +115,18 @@ def c13(r):
     # the end-to-end composition whose cross-node guarantees the concurrent runs are validated against
     r.tlc_exhaustive("World.tla", "World.cfg", workers=16)
     r.tlc_exhaustive("World.tla", "World_live.cfg", workers=8)
-    for cfg in ("Loops_sleep.cfg", "Loops_send.cfg"):
+    r.tlc_exhaustive("Loops.tla", "Loops_agg.cfg", workers=4)
+    # deviations: plain sleep, plain send, and an error channel with fewer slots than reporting workers
+    for cfg in ("Loops_sleep.cfg", "Loops_send.cfg", "Loops_errcap1.cfg", "Loops_errcap0.cfg"):
         ok, _ = r.tlc_exhaustive("Loops.tla", cfg, workers=4, expect_ok=False)
         if ok:
             raise Inconclusive(cfg + " should reproduce a shutdown hang")
+    # the real node.FullNode.Run, stopped / failing while workers wait inside the execution layer
+    tn = r.drive("fullnode", name="fullnode", timeout=1500)
+    st = r.driver_stats.get("fullnode", {})
+    if st.get("stops", 0) < max(1, st.get("scenarios", 0) - 2):
+        raise Inconclusive("fullnode driver could prepare only %d of %d stop scenarios" % (st.get("stops", 0), st.get("scenarios", 0)))
+    r.tlc_validate("RunTrace", tn, ["C13."])
     t = r.drive("world", race=True, name="world", timeout=3000)
     r.tlc_validate("WorldTrace", t, ["C13."])
     r.tlc_validate("ProducerTrace", t, ["C01."])
